@@ -275,10 +275,10 @@ Example C03_init_linear_examples :
 Proof. exact (conj example_init_linear (conj demo_init_linear split_not_core)). Qed.
 
 (* WITH a9's PREMISES DISCHARGED (teq_rt_laws, tc_annotations_typed_rt, parse_syn_ok): for PARSED
-   programs of the core fragment the premises left are the computable rt_syn_ok and the decidable
+   programs of the core fragment (prog_syn_ok and raw_ok are theorems for parsed programs) the premise left is the decidable
    init_linear; for all accepted closed programs, Topo along the runs (topo_runs) instead. *)
 Theorem C03_determinism_core_parsed : forall txt p p' md pick1 pick2 f1 f2 t1,
-  parse_string txt = POk p -> typecheck p = Accept p' -> in_fragment p' -> rt_syn_ok p = true ->
+  parse_string txt = POk p -> typecheck p = Accept p' -> in_fragment p' ->
   init_linear p' -> is_np md = false ->
   exec_run f1 pick1 md (p_types p') (p_funs p') (init_config p') = RQuiescent t1 -> (f1 <= f2)%nat ->
   exists t2, exec_run f2 pick2 md (p_types p') (p_funs p') (init_config p') = RQuiescent t2 /\
@@ -286,7 +286,7 @@ Theorem C03_determinism_core_parsed : forall txt p p' md pick1 pick2 f1 f2 t1,
 Proof. exact determinism_core_parsed. Qed.
 
 Theorem C03_async_sync_agree_core_parsed : forall txt p p' pick1 f1 t1,
-  parse_string txt = POk p -> typecheck p = Accept p' -> in_fragment p' -> rt_syn_ok p = true ->
+  parse_string txt = POk p -> typecheck p = Accept p' -> in_fragment p' ->
   init_linear p' ->
   exec_run f1 pick1 Sync (p_types p') (p_funs p') (init_config p') = RQuiescent t1 ->
   exists n, forall pick2 f2, (n < f2)%nat ->
@@ -294,7 +294,7 @@ Theorem C03_async_sync_agree_core_parsed : forall txt p p' pick1 f1 t1,
 Proof. exact async_sync_agree_core_parsed. Qed.
 
 Theorem C03_determinism_parsed : forall txt p p' md pick1 pick2 f1 f2 t1,
-  parse_string txt = POk p -> typecheck p = Accept p' -> in_fragment p' -> rt_syn_ok p = true ->
+  parse_string txt = POk p -> typecheck p = Accept p' -> in_fragment p' ->
   topo_runs p' -> is_np md = false ->
   exec_run f1 pick1 md (p_types p') (p_funs p') (init_config p') = RQuiescent t1 -> (f1 <= f2)%nat ->
   exists t2, exec_run f2 pick2 md (p_types p') (p_funs p') (init_config p') = RQuiescent t2 /\
@@ -319,23 +319,23 @@ Example C03_example_every_schedule :
 Proof. exact example_every_schedule. Qed.
 
 (* ---- stage 4: init_linear from acceptance.  For an accepted program without assumed names whose SOURCE
-   passes the syntactic tests rt_syn_ok (names as the parser makes them) and core_src_b (no drop /
+   passes the syntactic tests raw_ok (names as the parser makes them; a theorem for parsed programs) and core_src_b (no drop /
    split / droppable forward, one provider name per process, no empty case), init_linear holds of the
    checker's output: affinity of every body in every scope from C05, the forest of the initial
    configuration from C07's ProgOK (each declared name used by one process, acyclic uses). *)
 Theorem C03_init_linear_accept : forall p p',
-  typecheck p = Accept p' -> in_fragment p' -> prog_syn_ok p = true -> rt_syn_ok p = true ->
+  typecheck p = Accept p' -> in_fragment p' -> prog_syn_ok p = true -> raw_ok p = true ->
   core_src_b p = true -> init_linear p'.
 Proof. exact init_linear_accept. Qed.
 
 Theorem C03_topo_runs_core_accept : forall txt p p',
-  parse_string txt = POk p -> typecheck p = Accept p' -> in_fragment p' -> rt_syn_ok p = true ->
+  parse_string txt = POk p -> typecheck p = Accept p' -> in_fragment p' ->
   core_src_b p = true -> topo_runs p'.
 Proof. exact topo_runs_core_accept. Qed.
 
 (* C03 for parsed programs of the core fragment: the premises are computable conditions on the text *)
 Theorem C03_determinism_core_accept : forall txt p p' md pick1 pick2 f1 f2 t1,
-  parse_string txt = POk p -> typecheck p = Accept p' -> in_fragment p' -> rt_syn_ok p = true ->
+  parse_string txt = POk p -> typecheck p = Accept p' -> in_fragment p' ->
   core_src_b p = true -> is_np md = false ->
   exec_run f1 pick1 md (p_types p') (p_funs p') (init_config p') = RQuiescent t1 -> (f1 <= f2)%nat ->
   exists t2, exec_run f2 pick2 md (p_types p') (p_funs p') (init_config p') = RQuiescent t2 /\
@@ -343,7 +343,7 @@ Theorem C03_determinism_core_accept : forall txt p p' md pick1 pick2 f1 f2 t1,
 Proof. exact determinism_core_accept. Qed.
 
 Theorem C03_async_sync_agree_core_accept : forall txt p p' pick1 f1 t1,
-  parse_string txt = POk p -> typecheck p = Accept p' -> in_fragment p' -> rt_syn_ok p = true ->
+  parse_string txt = POk p -> typecheck p = Accept p' -> in_fragment p' ->
   core_src_b p = true ->
   exec_run f1 pick1 Sync (p_types p') (p_funs p') (init_config p') = RQuiescent t1 ->
   exists n, forall pick2 f2, (n < f2)%nat ->
